@@ -110,6 +110,12 @@ def guard():
 
 def generated_obligations(ctx):
     ok, problems = guard()
+    # the lock discipline itself (fail closed): every access to the shared fields and every CALL of a
+    # *_unlocked method is inside `with self._version_lock`, inside another *_unlocked method, or in __init__
+    # (so e.g. _commit_version must take the lock around _commit_version_unlocked)
+    ok2, problems2, _ = c12_astguard.guard()
+    ok = ok and ok2
+    problems = problems + problems2
     ctx.notes["structure_guard"] = {"ok": ok, "problems": problems[:10]}
     return {
         "obligations": 1, "discharged": 1 if ok else 0, "ok": ok,
@@ -215,7 +221,136 @@ def one_run(kind, rprog, p, line_mode):
     return fail, nread
 
 
+# ---------------------------------------------------------------------------------------------------
+# a COMMIT (append + prune + end of write) is one atomic step with respect to readers: stop the committing
+# thread at every source line (sys.settrace) of its whole life - in particular inside _commit_version,
+# _commit_version_unlocked and _prune_versions_unlocked - and let readers open (latest, and by the id of the
+# version that is about to be pruned), close, and the policy change there.
+
+def commit_window_run(kind, variant, p):
+    """variant 0: reader(id=<old version>) and reader() open at line p of the committing writer;
+    variant 1: a reader that pinned the old version closes at line p and another opens on it by id;
+    variant 2: set_max_versions(1) runs at line p while an older version is pinned.
+    Returns (failure or None, line steps of the committer, progs, schedule)"""
+    import c12_lines
+    W = [0, 0, [[0, 2, 5]], 1]
+    if variant == 0:
+        progs = [W, [1, 0, 2], [1, None], [0, 0, [[0, 3, 1]], 1]]
+        before, intruders = [], [1, 2]
+    elif variant == 1:
+        progs = [W, [1, None], [1, 0, 2], [0, 0, [[0, 3, 1]], 1]]
+        before, intruders = [1], [1, 2]
+    else:
+        progs = [W, [1, None], [2, 1], [0, 0, [[0, 3, 1]], 1]]
+        before, intruders = [1], [2]
+    lr = c12_lines.LineRun(progs, kind)
+    r = lr.r
+    z = r.z
+    ws = r.sched.workers
+    sched = []
+    fail = None
+    n_obs = 0
+
+    def ready(w):
+        return w.done or w.gate[0] == "read"
+
+    def run_until(tid, cond, budget=5000):
+        nonlocal fail
+        while fail is None and not cond() and budget:
+            budget -= 1
+            run = tid
+            if not r.sched.enabled(ws[tid]):
+                owner = r.sched.lock.owner
+                others = [w.tid for w in ws if not w.done and r.sched.enabled(w) and not (w.gate[0] == "read")]
+                if owner is not None and owner in others:
+                    run = owner
+                elif others:
+                    run = others[0]
+                else:
+                    fail = {"what": "deadlock: unfinished threads and no step enabled", "blocked": tid}
+                    return
+            sched.append(run)
+            r.step(run)
+            fail = lr.check_state(len(sched) - 1)
+
+    try:
+        with z.writer() as t:      # version 2: the one a commit of W will want to prune
+            t.replace(pC11.key_name(0), pC11.key_rdataset(0, 10))
+        for tid in before:
+            run_until(tid, lambda tid=tid: ready(ws[tid]))
+        k = 0
+        while fail is None and k < p and not ws[0].done:
+            run_until(0, lambda k0=len(sched): len(sched) > k0)
+            k += 1
+        n_obs = k
+        for tid in intruders:
+            if variant == 1 and tid == 1:
+                run_until(1, lambda: ws[1].done)           # the pinning reader closes here
+            else:
+                run_until(tid, lambda tid=tid: ready(ws[tid]))
+        run_until(0, lambda: ws[0].done)
+        if fail is None:
+            # with everything quiet: every open reader's version must be retained and reachable by id
+            for txn in list(z._readers):
+                if not any(txn.version is v for v in z._versions):
+                    fail = {"what": "an open reader's version is not retained", "vid": txn.version.id,
+                            "retained": [v.id for v in z._versions]}
+                    break
+                try:
+                    z.reader(id=txn.version.id).rollback()
+                except KeyError:
+                    fail = {"what": "reader(id=) of a pinned version raised KeyError", "vid": txn.version.id}
+                    break
+        for w in ws:
+            if fail is None and not w.done:
+                run_until(w.tid, lambda w=w: w.done)
+        if fail is None and (z._write_txn is not None or len(z._readers)):
+            fail = {"what": "zone not idle after every thread finished"}
+    finally:
+        r.close()
+    return fail, n_obs, progs, sched
+
+
+def commit_window_check(ctx):
+    F = []
+    runs = 0
+    for kind in (0, 1):
+        for variant in (0, 1, 2):
+            _, total, _, _ = commit_window_run(kind, variant, 10 ** 6)
+            for p in range(total + 1):
+                fail, _, progs, sched = commit_window_run(kind, variant, p)
+                runs += 1
+                if fail is not None:
+                    F.append({
+                        "kind": "C11:commit-atomicity:" + fail["what"], "sig": "commit-window:" + fail["what"],
+                        "what": fail["what"] + " (readers / policy scheduled at source line %d of a committing writer)" % p,
+                        "zone": ("dns.versioned.Zone", "dns.btreezone.Zone")[kind], "variant": variant,
+                        "detail": {k: v for k, v in fail.items() if k != "what"},
+                        "case": [105, kind, variant, p],
+                    })
+                    break
+    ctx.notes["extra_evaluations"] = ctx.notes.get("extra_evaluations", 0) + runs
+    ctx.notes["extra_nontrivial"] = ctx.notes.get("extra_nontrivial", 0) + runs
+    ctx.notes["commit_window_runs"] = runs
+    seen, out = set(), []
+    for f in F:
+        if f["sig"] not in seen:
+            seen.add(f["sig"])
+            out.append(f)
+    return out
+
+
+def replay_commit_window(case):
+    _, kind, variant, p = case
+    fail, _, _, _ = commit_window_run(kind, variant, p)
+    return fail
+
+
 def check(ctx):
+    return reader_open_check(ctx) + commit_window_check(ctx)
+
+
+def reader_open_check(ctx):
     F = []
     evals = 0
     points = {}
